@@ -22,11 +22,11 @@ package resolver
 import (
 	"bytes"
 	"context"
-	"errors"
 	"crypto/ed25519"
 	"encoding/base64"
 	"encoding/gob"
 	"encoding/json"
+	"errors"
 	"fmt"
 	"math/rand"
 	"net"
@@ -43,8 +43,10 @@ import (
 
 	"github.com/miekg/dns"
 	"github.com/semihalev/sdns/config"
-	"github.com/semihalev/sdns/middleware"
+	"github.com/semihalev/sdns/internal/authority"
+	"github.com/semihalev/sdns/internal/cache"
 	"github.com/semihalev/sdns/internal/dnsutil"
+	"github.com/semihalev/sdns/middleware"
 	"github.com/semihalev/sdns/middleware/resolver/dnssec"
 	"github.com/semihalev/zlog/v2"
 )
@@ -249,7 +251,7 @@ func vC09NewPool(seed int64, n int) *vC09Pool {
 type vC09Server struct {
 	mu     sync.Mutex
 	answer []dns.RR
-	mode   int // 0 answer, 1 drop
+	mode   int // 0 answer, 1 drop; for questions other than (., DNSKEY): 2 NXDOMAIN + SOA, 3 NODATA + SOA, 4 referral to vc09-child., 5 bare NXDOMAIN, 6 bare NOERROR (both sections empty)
 	hook   func()
 	asked  int
 	addr   string
@@ -274,6 +276,22 @@ func (s *vC09Server) ServeDNS(w dns.ResponseWriter, r *dns.Msg) {
 	resp.Authoritative = true
 	if len(r.Question) == 1 && r.Question[0].Qtype == dns.TypeDNSKEY && r.Question[0].Name == "." {
 		resp.Answer = ans
+	} else if mode >= 2 {
+		soa := &dns.SOA{Hdr: dns.RR_Header{Name: ".", Rrtype: dns.TypeSOA, Class: dns.ClassINET, Ttl: 600},
+			Ns: "a.root-servers.net.", Mbox: "nstld.verisign-grs.com.", Serial: 2026092600, Refresh: 1800, Retry: 900, Expire: 604800, Minttl: 600}
+		switch mode {
+		case 2:
+			resp.Rcode = dns.RcodeNameError
+			resp.Ns = []dns.RR{soa}
+		case 3:
+			resp.Ns = []dns.RR{soa}
+		case 4:
+			resp.Authoritative = false
+			resp.Ns = []dns.RR{&dns.NS{Hdr: dns.RR_Header{Name: "vc09-child.", Rrtype: dns.TypeNS, Class: dns.ClassINET, Ttl: 600}, Ns: "ns.vc09-child."}}
+			resp.Extra = []dns.RR{&dns.A{Hdr: dns.RR_Header{Name: "ns.vc09-child.", Rrtype: dns.TypeA, Class: dns.ClassINET, Ttl: 600}, A: net.IPv4(127, 0, 0, 1)}}
+		case 5:
+			resp.Rcode = dns.RcodeNameError
+		}
 	}
 	_ = w.WriteMsg(resp)
 }
@@ -314,6 +332,56 @@ type vC09Watch struct {
 	wd  int
 	dir string
 	ino map[string]uint64
+	// what happened to temp files (names <file>.tmp.*) and to the two named files since the last drain, as the
+	// codes of Run.v OFs: 10c+k, c = 0 tombstones / 1 state; k = 1 temp created, 2 written, 3 closed after
+	// writing, 4 moved away, 5 named file replaced by a move, 6 temp deleted, 7 named file created / written /
+	// deleted in place, 8 something moved onto a temp name; consecutive repeats collapsed
+	events []int
+}
+
+const vC09WatchMask = syscall.IN_CREATE | syscall.IN_MODIFY | syscall.IN_CLOSE_WRITE | syscall.IN_MOVED_FROM | syscall.IN_MOVED_TO | syscall.IN_DELETE
+
+func vC09EventCode(mask uint32, name string) int {
+	if mask&syscall.IN_ISDIR != 0 {
+		return -1
+	}
+	c, temp := -1, false
+	switch {
+	case name == tombstoneFile:
+		c = 0
+	case name == stateFile:
+		c = 10
+	case strings.HasPrefix(name, tombstoneFile+".tmp."):
+		c, temp = 0, true
+	case strings.HasPrefix(name, stateFile+".tmp."):
+		c, temp = 10, true
+	default:
+		return -1
+	}
+	if !temp {
+		if mask&syscall.IN_MOVED_TO != 0 {
+			return c + 5
+		}
+		if mask&(syscall.IN_CREATE|syscall.IN_MODIFY|syscall.IN_CLOSE_WRITE|syscall.IN_DELETE|syscall.IN_MOVED_FROM) != 0 {
+			return c + 7
+		}
+		return -1
+	}
+	switch {
+	case mask&syscall.IN_CREATE != 0:
+		return c + 1
+	case mask&syscall.IN_MODIFY != 0:
+		return c + 2
+	case mask&syscall.IN_CLOSE_WRITE != 0:
+		return c + 3
+	case mask&syscall.IN_MOVED_FROM != 0:
+		return c + 4
+	case mask&syscall.IN_DELETE != 0:
+		return c + 6
+	case mask&syscall.IN_MOVED_TO != 0:
+		return c + 8
+	}
+	return -1
 }
 
 var vC09InotifyFd = -2
@@ -340,7 +408,7 @@ func vC09Inotify() int {
 func vC09NewWatch(dir string) (*vC09Watch, error) {
 	w := &vC09Watch{fd: vC09Inotify(), dir: dir, ino: map[string]uint64{}}
 	if w.fd >= 0 {
-		wd, err := syscall.InotifyAddWatch(w.fd, dir, syscall.IN_MOVED_TO)
+		wd, err := syscall.InotifyAddWatch(w.fd, dir, vC09WatchMask)
 		if err != nil {
 			w.fd = -1
 		} else {
@@ -387,6 +455,7 @@ func (w *vC09Watch) drain() []string {
 		return names
 	}
 	var names []string
+	w.events = nil
 	buf := make([]byte, 64*1024)
 	for {
 		n, err := syscall.Read(w.fd, buf)
@@ -400,6 +469,11 @@ func (w *vC09Watch) drain() []string {
 			name := string(bytes.TrimRight(buf[off+syscall.SizeofInotifyEvent:off+syscall.SizeofInotifyEvent+nameLen], "\x00"))
 			if ev.Mask&syscall.IN_MOVED_TO != 0 && int(ev.Wd) == w.wd {
 				names = append(names, name)
+			}
+			if int(ev.Wd) == w.wd {
+				if c := vC09EventCode(ev.Mask, name); c >= 0 && (len(w.events) == 0 || w.events[len(w.events)-1] != c) {
+					w.events = append(w.events, c)
+				}
 			}
 			off += syscall.SizeofInotifyEvent + nameLen
 		}
@@ -487,6 +561,7 @@ type vC09H struct {
 	sticky                   vC09Faults
 	stickyLeft               int
 	windowSeen               map[string]bool
+	junk                     map[string]bool // temp files lying in the directory (left by simulated crashes)
 	tRun, tNew               time.Duration
 	nRun, nNew, nDrop        int
 }
@@ -680,6 +755,30 @@ func (o vC09Obs) short() string {
 }
 
 // restart: a new process on the same directory
+// NewResolver starts a goroutine (Resolver.run) that waits for middleware.Ready() for ever, so every Resolver this
+// process ever made stays reachable — with its pre-allocated delegation and glue caches (about 1.3 MB each, three or
+// four Resolvers per history: 3.5 GB after 800 histories, which made the thorough tier the OOM killer's first choice
+// on a busy machine). A Resolver the driver is done with gets small caches in their place; they are valid objects, so
+// nothing that might still hold the old Resolver can trip over them.
+var vC09TinyCache = cache.New(1) // one for all released Resolvers: nobody uses them any more
+
+func vC09Release(r *Resolver) {
+	if r == nil {
+		return
+	}
+	r.glueV4 = vC09TinyCache
+	if r.glueV6 != nil {
+		r.glueV6 = vC09TinyCache
+	}
+	type mirror struct {
+		c   *cache.Cache
+		now func() time.Time
+	}
+	if r.delegations != nil && unsafe.Sizeof(authority.Cache{}) == unsafe.Sizeof(mirror{}) {
+		(*mirror)(unsafe.Pointer(r.delegations)).c = vC09TinyCache
+	}
+}
+
 func (h *vC09H) newResolver(cfg []vC09Sym, tr int, sr bool) {
 	tp := h.tpath()
 	pt, ptok := vC09ReadOpt(tp)
@@ -724,6 +823,7 @@ func (h *vC09H) newResolver(cfg []vC09Sym, tr int, sr bool) {
 		c.RecursionFirewall.MaxRRsetSignatureChecks = uint32(h.budget)
 	}
 	tA := time.Now()
+	vC09Release(h.r)
 	h.r = NewResolver(c)
 	h.tNew += time.Since(tA)
 	h.nNew++
@@ -983,6 +1083,8 @@ func (h *vC09H) run(fe vC09Fetch, fl vC09Faults) {
 		}
 		if h.watch.fd < 0 {
 			h.watch.snapshot()
+		} else {
+			h.watch.drain() // the driver's own fault set-up is not part of what the run did to the directory
 		}
 	}
 	h.srv.mu.Unlock()
@@ -1005,6 +1107,7 @@ func (h *vC09H) run(fe vC09Fetch, fl vC09Faults) {
 	}
 
 	names := h.watch.drain()
+	fsEvents := append([]int(nil), h.watch.events...)
 	h.srv.mu.Lock()
 	h.srv.hook = nil
 	asked := h.srv.asked
@@ -1058,7 +1161,16 @@ func (h *vC09H) run(fe vC09Fetch, fl vC09Faults) {
 	}
 	ents, _ := os.ReadDir(h.dir)
 	for _, e := range ents {
-		if e.Name() != stateFile && e.Name() != tombstoneFile {
+		if e.Name() != stateFile && e.Name() != tombstoneFile && !h.junk[e.Name()] {
+			if vC09EventCode(syscall.IN_CREATE, e.Name())%10 == 1 && h.watch.fd >= 0 {
+				// a temp file the run left behind: reported through the watcher's event list (no "deleted" event),
+				// judged there; it stays in the directory as it would in production
+				if h.junk == nil {
+					h.junk = map[string]bool{}
+				}
+				h.junk[e.Name()] = true
+				continue
+			}
 			h.bad = "left-over file in the state directory: " + e.Name()
 		}
 	}
@@ -1072,6 +1184,14 @@ func (h *vC09H) run(fe vC09Fetch, fl vC09Faults) {
 	h.steps = append(h.steps, fmt.Sprintf("ORun %s %s (F %s %d %s %s) %s %d %d [%s]",
 		vC09Z(h.V), fetchCoq, vC09B(fl.sread), fl.tread, vC09B(fl.twrite), vC09B(fl.swrite), h.cur.coq(), out, nrev, strings.Join(rn, ";")))
 	h.desc = append(h.desc, fmt.Sprintf("run t=%d fetch=%s faults=%+v -> counter=%d revoked=%d renames=%v %s", h.V, fetchCoq, fl, out, nrev, h.renames, h.cur.short()))
+	if h.watch.fd >= 0 {
+		var ev []string
+		for _, c := range fsEvents {
+			ev = append(ev, strconv.Itoa(c))
+		}
+		h.steps = append(h.steps, fmt.Sprintf("OFs [%s]", strings.Join(ev, ";")))
+		h.desc = append(h.desc, fmt.Sprintf("  directory events of that run (10c+k: c 0 tombstones 1 state; k 1 temp created 2 written 3 closed 4 moved away 5 named file replaced 6 temp deleted 7 named file touched in place): %v", fsEvents))
+	}
 	h.probes(&fe)
 }
 
@@ -1159,10 +1279,79 @@ func (h *vC09H) probe(fe vC09Fetch, why string) {
 	h.windows = append(h.windows, string(b))
 }
 
+// The other consumers of the trust set: every validating (CD=0) query goes through one of three gates on
+// Resolver.hasTrustAnchors — answer() (positive answers: probe above), authority() (NXDOMAIN / NODATA) and
+// validateDelegation() (referrals). Under an EMPTY trust set (the fail-closed state) each must refuse with
+// ErrTrustAnchorsUnavailable instead of passing unauthenticated data on. kind: 1 NXDOMAIN + SOA, 2 NODATA + SOA
+// (both authority()), 3 referral (validateDelegation(), and behind it dsRRFromRootKeys), 4 a bare NXDOMAIN and
+// 5 a bare NOERROR — both sections empty: since 199ba21 resolve() hands these to authority() too. Asked through Resolver.Resolve against the scripted root,
+// query-name minimisation off so the one exchange is the probe. Only the empty trust set is probed: what a
+// non-empty one makes of an unsigned negative answer is C01/C03's subject, not this property's.
+func (h *vC09H) probeGate(kind int) {
+	if h.budget > 0 || h.bad != "" || len(h.cur.live) != 0 {
+		return
+	}
+	h.srv.mu.Lock()
+	h.srv.answer = nil
+	h.srv.mode = 1 + kind
+	h.srv.hook = nil
+	h.srv.asked = 0
+	h.srv.mu.Unlock()
+	req := new(dns.Msg)
+	switch kind {
+	case 1, 4:
+		req.SetQuestion("vc09-absent.", dns.TypeA)
+	case 2, 5:
+		req.SetQuestion(".", dns.TypeMX)
+	default:
+		req.SetQuestion("host.vc09-child.", dns.TypeA)
+	}
+	req.SetEdns0(dnsutil.DefaultMsgSize, true)
+	ctx, cancel := context.WithDeadline(context.Background(), time.Now().Add(h.r.netTimeout))
+	resp, rerr := h.r.Resolve(ctx, req, h.r.rootServers, true, 5, 0, true, nil, true)
+	cancel()
+	h.srv.mu.Lock()
+	asked := h.srv.asked
+	h.srv.mode = 0
+	h.srv.mu.Unlock()
+	via, verr := 2, ""
+	switch {
+	case rerr == nil && resp != nil:
+		via = 4
+		if resp.AuthenticatedData {
+			via = 0
+		}
+	case errors.Is(rerr, dnssec.ErrTrustAnchorsUnavailable):
+		via = 1
+	}
+	if rerr != nil {
+		verr = rerr.Error()
+		var ne net.Error
+		if via != 1 && (errors.Is(rerr, context.DeadlineExceeded) || errors.Is(rerr, context.Canceled) || errors.As(rerr, &ne)) {
+			via = 3
+		}
+	}
+	if asked == 0 && via != 1 {
+		via = 3
+	}
+	rec := map[string]any{
+		"k":          fmt.Sprintf("gate-%d", kind),
+		"coq":        fmt.Sprintf("CGate %s %d %d", vC09KeysCoq(h.cur.live), kind, via),
+		"nontrivial": true,
+		"desc": map[string]any{"index": h.idx, "what": "validating query (1 NXDOMAIN+SOA, 2 NODATA+SOA, 3 referral, 4 bare NXDOMAIN, 5 bare NOERROR) through Resolve under an empty trust set",
+			"live": vC09KeysCoq(h.cur.live), "kind": kind, "resolve": via, "resolve_err": verr, "asked": asked},
+	}
+	b, _ := json.Marshal(rec)
+	h.windows = append(h.windows, string(b))
+}
+
 // probes after a run / restart: the response just served, and the published set signed by one or two keys picked among
 // everything this history knows (live, published, pending, withdrawn, tombstoned keys in plain and in revoked form)
 func (h *vC09H) probes(served *vC09Fetch) {
 	r := h.rng
+	if len(h.cur.live) == 0 && r.Intn(3) == 0 {
+		h.probeGate(1 + r.Intn(5))
+	}
 	p := 8
 	if h.idx < len(vC09Kinds) || len(h.cur.live) == 0 {
 		p = 3
@@ -1258,11 +1447,47 @@ func (h *vC09H) probes(served *vC09Fetch) {
 }
 
 // the process died after k of the last run's replacements; restart with cfg
-func (h *vC09H) rollback(k int, cfg []vC09Sym) {
+// The process died between two file-system operations of atomicGobWrite: besides what the first k replacements
+// leave under the two names, the temp file of a write in progress lies in the directory. junk: 0 none, else
+// 1 + 3*target + fill (target 0 tombstones 1 state; fill 0 empty 1 half-written 2 complete); < 0: pick.
+func (h *vC09H) rollback(k int, cfg []vC09Sym) { h.rollbackJunk(k, cfg, -1) }
+
+func (h *vC09H) rollbackJunk(k int, cfg []vC09Sym, junk int) {
 	if k > len(h.renames) {
 		k = len(h.renames)
 	}
-	h.script = append(h.script, map[string]any{"op": "rollback", "k": k, "cfg": h.roles(cfg)})
+	if junk < 0 {
+		junk = 0
+		if h.rng.Intn(2) == 0 {
+			junk = 1 + h.rng.Intn(6)
+		}
+	}
+	h.script = append(h.script, map[string]any{"op": "rollback", "k": k, "cfg": h.roles(cfg), "junk": junk})
+	if junk > 0 {
+		target, content, ok := tombstoneFile, h.postT, h.postTok
+		if (junk-1)/3 == 1 {
+			target, content, ok = stateFile, h.postS, h.postSok
+		}
+		if !ok || len(content) == 0 {
+			content = []byte("\x0c\xff\x81\x04\x01\x02 not a complete gob stream")
+		}
+		var b []byte
+		switch (junk - 1) % 3 {
+		case 1:
+			b = content[:len(content)/2]
+		case 2:
+			b = content
+		}
+		if h.junk == nil {
+			h.junk = map[string]bool{}
+		}
+		name := fmt.Sprintf("%s.tmp.%d", target, 100000000+len(h.junk)*7919+junk)
+		_ = os.WriteFile(filepath.Join(h.dir, name), b, 0o600)
+		h.junk[name] = true
+		defer func() {
+			h.desc = append(h.desc, fmt.Sprintf("  (that crash left the temp file %s in the directory, %d octets)", name, len(b)))
+		}()
+	}
 	s, sok, t, tok := h.preS, h.preSok, h.preT, h.preTok
 	for _, f := range h.renames[:k] {
 		if f == 0 {
@@ -1976,7 +2201,7 @@ func (h *vC09H) scenario(kind string) {
 		rounds := 1 + r.Intn(2)
 		for round := 0; round < rounds; round++ {
 			mask := 1 + r.Intn(1<<na-1) // which anchors carry REVOKE (non-empty)
-			signed := r.Intn(1 << na)  // which of them self-sign (any subset, possibly none)
+			signed := r.Intn(1 << na)   // which of them self-sign (any subset, possibly none)
 			if h.idx < len(vC09Kinds) {
 				mask, signed = 3, 1 // walk-through instance: {A+REVOKE self-signed, B+REVOKE unsigned}
 			}
@@ -2319,7 +2544,7 @@ func (h *vC09H) play(ops []map[string]any) bool {
 			if !ok {
 				return false
 			}
-			h.rollback(num(op["k"]), cfg)
+			h.rollbackJunk(num(op["k"]), cfg, num(op["junk"]))
 		case "run":
 			ks, ok := keys(op["keys"])
 			if !ok {
@@ -2434,6 +2659,7 @@ func TestVerifC09AutoTA(t *testing.T) {
 	}
 	finish := func(h *vC09H, w *vC09Watch, dir, kind, mode, fkey string, idx int) {
 		w.close()
+		vC09Release(h.r)
 		_ = os.RemoveAll(dir)
 		vC09Stats.tRun += h.tRun
 		vC09Stats.tNew += h.tNew
